@@ -55,7 +55,7 @@ def gen_cases(tier, seed):
         if rng.random() < 0.1:
             cfg.update({"src_name": "übergröße 文件.bin", "dst_name": "зона 51 ☃.dat"})  # names with non-ASCII characters and blanks
         cfg["scribble_user"] = rng.random() < 0.3  # the user overwrites the attributes of the parameter objects it was handed
-        cases.append({"cfg": cfg, "faults": faults, "cancel": cancel, "seed": seed * 1_000_003 + i, "prior": rng.choice([None, None, None, "completed", "cancelled"]),
+        cases.append({"cfg": cfg, "faults": faults, "cancel": cancel, "seed": seed * 1_000_003 + i, "prior": rng.choice([None, None, None, "completed", "cancelled"]), "refused_first": rng.choice([None, None, None, "missing", "unknown_dest", "long_name"]),
                       "pacing": rng.choice([None, None, {"src_calls": 3}, {"src_calls": 6}, {"dst_calls": 3}, {"src_calls": 2, "dst_calls": 2}, {"dst_idle": 2}, {"src_idle": 2, "dst_calls": 2}])})
     # every single and double loss of a small acknowledged transfer (EOF or File Data as first PDU at the receiver, late Metadata, ...),
     # all switches on
@@ -413,6 +413,26 @@ def run_case(case):
                     ic.file_segment_recvd_indication_required, ic.transaction_finished_indication_required = cfg["ind"][2], cfg["ind"][3]
                 w.log.events = []  # the offline checker below judges the second transaction only
                 obs["judged_on_reused_handlers"] = 1
+            if case.get("refused_first"):
+                # a put request with messages of its own (an originating transaction id among them) is refused with the documented error
+                # (missing source file / unknown destination / over-long name) right before the judged request is handed in
+                from spacepackets.util import ByteFieldGenerator
+
+                from cfdppy.request import PutRequest
+
+                from ..msgs import build_msgs
+
+                kind = case["refused_first"]
+                bad_msgs = build_msgs([["orig", 91, 2, 4711, 2], ["raw", "726566757365"]])
+                bad = {"missing": PutRequest(w.dst_id, w.root / "srcdir" / "no-such-file.bin", w.dst_req_path, None, None, msgs_to_user=bad_msgs),
+                       "unknown_dest": PutRequest(ByteFieldGenerator.from_int(2, 99), w.src_path, w.dst_req_path, None, None, msgs_to_user=bad_msgs),
+                       "long_name": PutRequest(w.dst_id, w.src_path, w.root / "dstdir" / ("m" * 300), None, None, msgs_to_user=bad_msgs)}[kind]
+                try:
+                    w.S.put(bad)
+                    obs["request_meant_to_be_refused_was_accepted"] = 1
+                except Exception:  # noqa: BLE001  (which error is raised is C19's / C10's subject)
+                    obs["refused_requests_with_messages_before_the_judged_one"] = 1
+                w.log.events = [e for e in w.log.events if e["kind"] not in ("call", "exc")] if not case.get("prior") else []
             w.put()
             outcome = r.run()
         except InternalError as e:
@@ -446,6 +466,6 @@ def finalize(ctx):
     return [], inc
 
 
-REQUIRED = {"indications_judged": 5000, "metadata_recv_checked": 500, "file_segment_recv_checked": 500, "eof_recv_checked": 300, "eof_sent_checked": 300,
+REQUIRED = {"refused_requests_with_messages_before_the_judged_one": 300, "indications_judged": 5000, "metadata_recv_checked": 500, "file_segment_recv_checked": 500, "eof_recv_checked": 300, "eof_sent_checked": 300,
             "runs_with_one_pdu_kind_never_arriving": 40, "finished_pdu_vs_indication_checked": 200, "messages_to_user_checked": 100, "originating_id_rule_checked": 100, "cancelled_runs": 100, "faulty_runs": 100,
             "completion_indicated_S": 200, "completion_indicated_D": 200, "judged_on_reused_handlers": 200, "enumerated_loss_runs": 50}
